@@ -42,21 +42,14 @@ deriving Repr, DecidableEq
 /-- `for unit in unit_elements: if unit['units'] not in units_found: … add_now = False` -/
 def ready (st : Store) (d : UDef) : Bool := d.elems.all (fun e => st.isDefined e.units)
 
-def elemOffsetBad (e : UnitElem) : Bool :=
-  match e.offset with
-  | some o => offsetRejected o
-  | none => false
-
 /-- pint's `parse_expression` evaluates every identifier of the (prefixed) expression: each must be a registry key -/
-def refsResolve (reg : Registry) (st : Store) (d : UDef) : Bool :=
-  d.elems.all (fun e => allKnown reg (nameContainer (mangle st.id e.units)))
+def refsResolve (reg : Registry) (st : Store) (d : UDef) : Bool := refsKnown reg st.id d.elems
 
-/-- the `add_now` branch: `_make_pint_unit_definition` (offset test), `is_defined`, `add_unit` -/
+/-- the `add_now` branch: `_make_pint_unit_definition` (offset test), `is_defined` (`name in _known_units`, a set
+    that starts as `_CELLML_UNITS`: `Store.isDefined`), `add_unit` -/
 def addNow (reg : Registry) (st : Store) (d : UDef) : Except AddErr (Registry × Store) :=
   if d.elems.any elemOffsetBad then .error (.valueError "offset")
   else if st.isDefined d.name then .error (.valueError "duplicate")
-  else if Cellml.Gen.unsupportedUnits.contains d.name then .error (.valueError "unsupported unit")
-  else if !refsResolve reg st d then .error .undefinedUnit
   else addUnit reg st d.name d.elems
 
 /-- first pass, document order: base units are added at once, the others are queued -/
